@@ -41,6 +41,7 @@ theorem coupled0_init : Coupled0 {} {} := by
 
 theorem coupled_init : Coupled {} := ⟨coupled0_init, Core.invF_init⟩
 
+
 /-! ### steps of the core alone -/
 
 /-- a core step that makes no callback, keeps the keys and starts nothing -/
@@ -65,6 +66,13 @@ theorem Coupled0.core_sched {js : Job.State} {c c' : Core.State} (h : Coupled0 j
 theorem Coupled0.core_eq {js : Job.State} {c c' : Core.State} (h : Coupled0 js c) (ht : c'.tasks = c.tasks)
     (hw : c'.workers = c.workers) : Coupled0 js c' :=
   h.core_silent (Core.Fr.of_eq ht hw) (by rw [ht])
+
+/-- the empty system with any proactive-filling parameters -/
+theorem coupled_initState (reserve max : Nat) : Coupled (initState reserve max) := by
+  have e : Core.CoreEq ({} : Core.State) (initState reserve max).core := ⟨rfl, rfl, rfl, rfl⟩
+  exact ⟨coupled0_init.core_eq rfl rfl, ⟨e.inv Core.invF_init.inv, e.twi Core.invF_init.tw⟩⟩
+
+theorem initState_default : initState 1 1 = {} := rfl
 
 /-! ### the job layer's own invariant along the callbacks -/
 
